@@ -42,8 +42,18 @@ class Lock:
         self.f.close()
 
 
+def _big_stack():
+    # coqc parses case files with list literals of 10^5 elements (C10 many-terms case): lift the stack limit
+    import resource
+    try:
+        resource.setrlimit(resource.RLIMIT_STACK, (resource.RLIM_INFINITY, resource.RLIM_INFINITY))
+    except (ValueError, OSError):
+        pass
+
+
 def run(cmd, timeout=None, cwd=None, env=None):
-    p = subprocess.run(cmd, cwd=cwd, env=env, timeout=timeout, stdout=subprocess.PIPE, stderr=subprocess.STDOUT, text=True)
+    p = subprocess.run(cmd, cwd=cwd, env=env, timeout=timeout, stdout=subprocess.PIPE, stderr=subprocess.STDOUT, text=True,
+                       preexec_fn=_big_stack)
     return p.returncode, p.stdout
 
 
